@@ -213,10 +213,10 @@ def acyclic_edges(n, edges):
 
 def order_part(check):
     rng = check.rng
-    ncases = 400 if check.thorough else 80
+    ncases = 600 if check.thorough else 300
     mreqs, rreqs, meta = [], [], []
     for c in range(ncases):
-        n = rng.randint(2, 6 if not check.thorough else 10)
+        n = rng.randint(2, 8 if not check.thorough else 10)
         dag = rng.random() < 0.75
         order = list(range(n))
         rng.shuffle(order)
@@ -238,6 +238,7 @@ def order_part(check):
     allnames = set().union(*[m[5] for m in meta])
     mans = [l2.norm(a) for a in model(mreqs, names=allnames)]
     rans = [l2.norm(a) for a in runner(rreqs)]
+    mismatch = None
     for (lang, n, edges, renamed, text, _, kinds), ma, ra, rq in zip(meta, mans, rans, rreqs):
         check.saw(("order", lang, text), nontrivial=bool(edges))
         check.count("order-%s-%s" % (lang, "dag" if acyclic_edges(n, edges) else "cyclic"))
@@ -274,12 +275,15 @@ def order_part(check):
                 check.violation("%s definition order: %s %s" % (lang, problem[0], problem[1]),
                                 case={"lang": lang, "source": text, "edges": edges}, impl=out, model=ma.get("ok"), failing_input=True)
                 return
-        if ma != ra:
-            check.violation("%s generation differs from the model on a reference-graph program: %s" % (
+        if ma != ra and mismatch is None:
+            # keep looking: a later program may show the property itself failing (a concrete mis-ordered definition)
+            mismatch = dict(what="%s generation differs from the model on a reference-graph program: %s" % (
                 lang, l2.text_diff(ma["ok"][""], ra["ok"][""]) if "ok" in ma and "ok" in ra else (ma, ra)),
-                case={"lang": lang, "source": text, "request": rq}, impl=ra, model=ma, failing_input=False,
-                broken="correspondence L2 topsort/get_dependencies (theorems TsV.C11.*)")
-            return
+                case={"lang": lang, "source": text, "request": rq}, impl=ra, model=ma)
+    if mismatch:
+        check.violation(mismatch["what"], case=mismatch["case"], impl=mismatch["impl"], model=mismatch["model"], failing_input=False,
+                        broken="correspondence L2 topsort/get_dependencies (theorems TsV.C11.*)")
+        return
     # stored witness of the open finding
     wf, _ = build_program(random.Random(1), 2, [(0, 1, "array")])
     # put T0 (the user) after T1 in source order reversed so that only sorting could fix it
@@ -297,7 +301,7 @@ def run(check):
     _run_graphs(check)
     if not check.violations:
         order_part(check)
-    check.rule += ("; end to end: programs of 2-6 (thorough 10) items whose reference graph (DAGs and cyclic) is placed at 13 kinds of "
+    check.rule += ("; end to end: programs of 2-8 (thorough 10) items whose reference graph (DAGs and cyclic) is placed at 13 kinds of "
                    "positions (field, Vec, Option, HashMap value, array, slice, generic argument, nested generic argument, Box, tuple "
                    "variant, struct-variant field, alias target), random source order, optional serde renames, through "
                    "parse->reconcile->generate for TS/Python/Kotlin/Swift/Go: definition order extracted from the real output must "
